@@ -23,7 +23,7 @@ import (
 type c10Case struct {
 	Files   map[string]string
 	Names   []string
-	SrcInfo int // protocompile.SourceInfoMode bits (0..7)
+	SrcInfo int    // protocompile.SourceInfoMode bits (0..7)
 	Mode    string // "proto": every output re-supplied as an unlinked proto; "desc": dependencies re-supplied as linked descriptors; "mixed"
 }
 
